@@ -211,6 +211,9 @@ func c01Check(w *World, cfg *CompositeCfg, opts *BootOptions, parents []ParentRe
 		if po == nil {
 			continue
 		}
+		if metaRO(po)["deletionTimestamp"] != nil && !(cfg.Finalize && hasFinalizer(po, cfg.FinalizerName()) && !hasGCFinalizer(po)) {
+			continue // children of a parent that is being deleted and cannot be finalized are not managed
+		}
 		var last *HookRec
 		for _, h := range w.Hooks {
 			// with a rolling strategy there is one call per live parent revision;
